@@ -1,3 +1,22 @@
-/-! # C06 — property theorems (stub: filled in when the property's model is built) -/
-namespace Scenic.C06
-end Scenic.C06
+import ScenicModel.Props.C06Resolve
+import ScenicModel.Props.C06Perm
+import ScenicModel.Props.C06Merge
+
+/-!
+# C06 -- specifier resolution follows the documented priorities, whatever the order
+
+Model: `ScenicModel/Model/Specifiers.lean`.  Theorems (all for arbitrary classes and specifier lists):
+
+* `resolve_spec`, `resolve_modifier` -- each property goes to its unique highest-priority specifier
+  (then at most one modifier), else to the default of the class;
+* `topo_order`, `topo_order_single_modifiable`, `evaluated_once` -- every specifier is evaluated once,
+  after everything it depends on is final;
+* `dup_name_reported`, `final_reported`, `tie_reported`, `missing_dep_reported`, `cycle_reported`,
+  `error_kinds_sound`, `cycle_error_sound`, `resolve_never_fuel` -- the errors;
+* `resolve_perm_invariant`, `resolve2D_perm_invariant`, `builtin_single_modifier`,
+  `builtin_perm_invariant` -- the outcome does not depend on the order;
+* `merge_most_derived`, `merge_additive_collects`, `merge_final_not_overridable`, `merge_finals`,
+  `transform2D_no_heading` -- class-level defaults;
+* `gen_code_matches_docs`, `gen_docs_covered`, `gen_table_wf`, `gen_single_modifier_name` -- side
+  conditions on the table regenerated from veneer.py and the reference manual on every run.
+-/
